@@ -128,7 +128,12 @@ theorem table_kinds :
        ("config.verbose", some [.int32, .int32]), ("config.coffee.veh", some [.int32, .int32]), ("config.coffee.threaded", some [.int32, .int32]),
        ("config.sleep-technique", some [.int32, .int32]), ("config.memory.alloc", some [.int32, .int32]), ("config.memory.execute", some [.int32, .int32]),
        ("config.inject.technique", some [.int32, .int32]), ("config.spawn64", some [.int32, .bytes]), ("config.spawn32", some [.int32, .bytes]),
-       ("config.killdate", some [.int32, .int64]), ("config.workinghours", some [.int32, .int32])] := by decide
+       ("config.killdate", some [.int32, .int64]),
+       ("kerb.luid", some [.int32]), ("kerb.klist", some [.int32, .int32, .int32]), ("kerb.purge", some [.int32, .int32]), ("kerb.ptt", some [.int32, .bytes, .int32]),
+       ("config.workinghours", some [.int32, .int32])] := by decide
+
+/-- a logon session id is read in base 16 whether or not it starts with 0x: "10" is sixteen, "0x3e7" and "3e7" are 999 -/
+example : luid [49, 48] = some 16 ∧ luid [48, 120, 51, 101, 55] = some 999 ∧ luid [51, 101, 55] = some 999 ∧ luid [48, 49, 50] = some 18 := by decide
 
 /-- the working hours word a `config workinghours` task must carry: every field in its own bits (the end minute needs six) -/
 example : (find "config.workinghours").bind (fun e => e.expect [[57, 58, 51, 48, 45, 49, 55, 58, 52, 53]]) =   -- "9:30-17:45"
